@@ -101,6 +101,7 @@ def main():
               'decisions': res['decisions'], 'digest': res['digest'],
               'violation': vi, 'steps': res['steps'],
               'tail': [list(map(str, e)) for e in res['tail'][-120:]],
+              'thread_names': {str(k): v for k, v in res['thread_names'].items()},
           }) + '\n')
   stats = {}
   for spec, s in st.items():
